@@ -378,3 +378,41 @@ def arg_text(a):
         if a[0] == 'ff':
             return 'format_float(%s)' % norm(a[1])
     return norm(a)
+
+
+def written_values(e, flow=None, at=None, depth=0):
+    """flatten the right-hand side of a %-format into the value expressions that are written:
+    tuples, tuple concatenation, format_float(...), tuple(f(x) for x in format_float(...)),
+    local temporaries (through `flow`)"""
+    if depth > 6:
+        return [e]
+    if isinstance(e, ast.Tuple) or isinstance(e, ast.List):
+        out = []
+        for x in e.elts:
+            out += written_values(x, flow, at, depth + 1) if isinstance(x, (ast.Tuple,)) else [x]
+        return out
+    if isinstance(e, ast.BinOp) and isinstance(e.op, ast.Add):
+        l = written_values(e.left, flow, at, depth + 1)
+        r = written_values(e.right, flow, at, depth + 1)
+        if isinstance(e.left, (ast.Tuple, ast.Call, ast.Name, ast.BinOp)) and \
+           isinstance(e.right, (ast.Tuple, ast.Call, ast.Name, ast.BinOp)) and \
+           (isinstance(e.left, ast.Tuple) or isinstance(e.right, ast.Tuple) or
+                _is_tuple_producer(e.left) or _is_tuple_producer(e.right)):
+            return l + r
+        return [e]
+    if isinstance(e, ast.Call) and isinstance(e.func, ast.Name) and e.func.id == 'format_float' and e.args:
+        return written_values(e.args[0], flow, at, depth + 1)
+    if isinstance(e, ast.Call) and isinstance(e.func, ast.Name) and e.func.id == 'tuple' and e.args:
+        a = e.args[0]
+        if isinstance(a, (ast.GeneratorExp, ast.ListComp)) and len(a.generators) == 1:
+            return written_values(a.generators[0].iter, flow, at, depth + 1)
+        return written_values(a, flow, at, depth + 1)
+    if isinstance(e, ast.Name) and flow is not None and e.id in flow.rd.names:
+        sd = flow.single_def(e.id, at if at is not None else flow.node_id_of(e))
+        if sd is not None and (isinstance(sd[0], (ast.Tuple,)) or _is_tuple_producer(sd[0])):
+            return written_values(sd[0], flow, sd[1], depth + 1)
+    return [e]
+
+
+def _is_tuple_producer(e):
+    return isinstance(e, ast.Call) and isinstance(e.func, ast.Name) and e.func.id in ('tuple', 'format_float')
